@@ -1616,6 +1616,41 @@ func (w *World) namespaceUndeclared(P string) {
 			}
 			E = loads[0]
 		}
+		// the rebuild may be spread over helpers of the package that fn calls (`E.namespaces = keepBinding(declared, n)`,
+		// `copyFromParent(E, declared, pos)`): each is read with its parameters standing for the values fn passes
+		type frame struct {
+			g    *ssa.Function
+			bind map[ssa.Value]ssa.Value
+		}
+		frames := []frame{{fn, nil}}
+		allInstrs(fn, func(in ssa.Instruction) {
+			c, ok := in.(*ssa.Call)
+			if !ok {
+				return
+			}
+			h := staticCallee(c)
+			if h == nil || h == fn || fnPkgKey(h) != "store" || len(h.Blocks) == 0 || len(frames) > 6 {
+				return
+			}
+			if _, isCtor := sf.Ctors[h]; isCtor {
+				return
+			}
+			b := map[ssa.Value]ssa.Value{}
+			for i, p := range h.Params {
+				if i < len(c.Call.Args) {
+					b[p] = c.Call.Args[i]
+				}
+			}
+			frames = append(frames, frame{h, b})
+		})
+		resolve := func(fr frame, v ssa.Value) ssa.Value {
+			if fr.bind != nil {
+				if a, ok := fr.bind[v]; ok {
+					return a
+				}
+			}
+			return v
+		}
 		// a store of a freshly made slice into E.namespaces
 		fresh := false
 		allInstrs(fn, func(in ssa.Instruction) {
@@ -1629,6 +1664,23 @@ func (w *World) namespaceUndeclared(P string) {
 			}
 			if _, isMake := st.Val.(*ssa.MakeSlice); isMake {
 				fresh = true
+			}
+			// ... or of the list a helper builds from a fresh slice
+			if c, isCall := st.Val.(*ssa.Call); isCall {
+				if h := staticCallee(c); h != nil && fnPkgKey(h) == "store" && len(h.Blocks) > 0 {
+					all, n := true, 0
+					allInstrs(h, func(in2 ssa.Instruction) {
+						if ret, isRet := in2.(*ssa.Return); isRet && len(ret.Results) == 1 {
+							n++
+							if !sliceContains(ret.Results[0], func(v ssa.Value) bool { _, isMk := v.(*ssa.MakeSlice); return isMk }) {
+								all = false
+							}
+						}
+					})
+					if all && n > 0 {
+						fresh = true
+					}
+				}
 			}
 		})
 		if !fresh {
@@ -1646,78 +1698,87 @@ func (w *World) namespaceUndeclared(P string) {
 		}
 		// the load that the keep loop ranges over: a load of E.namespaces whose elements are appended
 		var D ssa.Value
-		allInstrs(fn, func(in ssa.Instruction) {
-			c, ok := in.(*ssa.Call)
-			if !ok {
-				return
-			}
-			b, ok := c.Call.Value.(*ssa.Builtin)
-			if !ok || b.Name() != "append" || len(c.Call.Args) != 2 {
-				return
-			}
-			var src ssa.Value
-			sliceContains(c.Call.Args[1], func(v ssa.Value) bool {
-				if ia, ok := v.(*ssa.IndexAddr); ok && isD(ia.X) {
-					src = ia.X
-					return true
+		for _, fr := range frames {
+			fr := fr
+			allInstrs(fr.g, func(in ssa.Instruction) {
+				c, ok := in.(*ssa.Call)
+				if !ok {
+					return
 				}
-				return false
+				b, ok := c.Call.Value.(*ssa.Builtin)
+				if !ok || b.Name() != "append" || len(c.Call.Args) != 2 {
+					return
+				}
+				var src ssa.Value
+				sliceContains(c.Call.Args[1], func(v ssa.Value) bool {
+					if ia, ok := v.(*ssa.IndexAddr); ok && isD(resolve(fr, ia.X)) {
+						src = resolve(fr, ia.X)
+						return true
+					}
+					return false
+				})
+				if src == nil {
+					return
+				}
+				D = src
+				r.keeps++
+				guarded := false
+				for _, a := range guardAtoms(c.Block()) {
+					if isT, eqTrue := emptyNamespaceTest(a.V); isT && a.Pol != eqTrue {
+						guarded = true
+					}
+				}
+				if !guarded {
+					r.keepsOK = false
+				}
 			})
-			if src == nil {
-				return
-			}
-			D = src
-			r.keeps++
-			guarded := false
-			for _, a := range guardAtoms(c.Block()) {
-				if isT, eqTrue := emptyNamespaceTest(a.V); isT && a.Pol != eqTrue {
-					guarded = true
-				}
-			}
-			if !guarded {
-				r.keepsOK = false
-			}
-		})
+		}
 		if r.keeps == 0 {
 			return
 		}
 		// the prefix test gets the unfiltered declarations
-		allInstrs(fn, func(in ssa.Instruction) {
-			c, ok := in.(*ssa.Call)
-			if !ok {
-				return
-			}
-			sc := staticCallee(c)
-			if sc == nil || fnPkgKey(sc) != "store" || !comparesPrefix(sc) || len(c.Call.Args) == 0 {
-				return
-			}
-			r.predSeen = true
-			if c.Call.Args[0] == D {
-				r.predOK = true
-			}
-		})
-		// inline form of the prefix test: a comparison of Prefix() values one of which belongs to an element of D
-		if !r.predSeen {
-			allInstrs(fn, func(in ssa.Instruction) {
-				bo, ok := in.(*ssa.BinOp)
-				if !ok || (bo.Op != token.EQL && bo.Op != token.NEQ) {
+		for _, fr := range frames {
+			fr := fr
+			allInstrs(fr.g, func(in ssa.Instruction) {
+				c, ok := in.(*ssa.Call)
+				if !ok {
 					return
 				}
-				rx, okx := isMethodCall(bo.X, "Prefix")
-				ry, oky := isMethodCall(bo.Y, "Prefix")
-				if !okx || !oky {
+				sc := staticCallee(c)
+				if sc == nil || fnPkgKey(sc) != "store" || !comparesPrefix(sc) || len(c.Call.Args) == 0 {
 					return
 				}
 				r.predSeen = true
-				for _, recv := range []ssa.Value{rx, ry} {
-					if sliceContains(recv, func(v ssa.Value) bool {
-						ia, ok := v.(*ssa.IndexAddr)
-						return ok && ia.X == D
-					}) {
-						r.predOK = true
-					}
+				if resolve(fr, c.Call.Args[0]) == D {
+					r.predOK = true
 				}
 			})
+		}
+		// inline form of the prefix test: a comparison of Prefix() values one of which belongs to an element of D
+		if !r.predSeen {
+			for _, fr := range frames {
+				fr := fr
+				allInstrs(fr.g, func(in ssa.Instruction) {
+					bo, ok := in.(*ssa.BinOp)
+					if !ok || (bo.Op != token.EQL && bo.Op != token.NEQ) {
+						return
+					}
+					rx, okx := isMethodCall(bo.X, "Prefix")
+					ry, oky := isMethodCall(bo.Y, "Prefix")
+					if !okx || !oky {
+						return
+					}
+					r.predSeen = true
+					for _, recv := range []ssa.Value{rx, ry} {
+						if sliceContains(recv, func(v ssa.Value) bool {
+							ia, ok := v.(*ssa.IndexAddr)
+							return ok && resolve(fr, ia.X) == D
+						}) {
+							r.predOK = true
+						}
+					}
+				})
+			}
 		}
 		rb = r
 	})
